@@ -202,7 +202,7 @@ type location struct{ heap, row string }
 func (e *Engine) locationsOf(env *Env, m string) []location {
 	m = strings.TrimSpace(m)
 	if strings.HasPrefix(m, "heap:") {
-		return []location{{m[5:], "*"}}
+		return []location{{resolveHeapName(m[5:]), "*"}}
 	}
 	if strings.HasPrefix(m, "guarded(") && strings.HasSuffix(m, ")") {
 		ex, err := parseSpecExpr(m[8 : len(m)-1])
@@ -495,6 +495,36 @@ func (e *Engine) shortPkg(path string) string {
 		return sp.Pkg.Name()
 	}
 	return path
+}
+
+// expandUnitNames: "all" = every function of the package; "methods:T" = every method of T and the closures inside.
+func (e *Engine) expandUnitNames(pkgPath string, names []string) []string {
+	var out []string
+	seen := map[string]bool{}
+	add := func(n string) {
+		if !seen[n] {
+			seen[n] = true
+			out = append(out, n)
+		}
+	}
+	for _, n := range names {
+		switch {
+		case n == "all":
+			for _, m := range e.allFunctionNames(pkgPath) {
+				add(m)
+			}
+		case strings.HasPrefix(n, "methods:"):
+			t := n[len("methods:"):]
+			for _, m := range e.allFunctionNames(pkgPath) {
+				if strings.HasPrefix(m, "(*"+t+").") || strings.HasPrefix(m, "("+t+").") {
+					add(m)
+				}
+			}
+		default:
+			add(n)
+		}
+	}
+	return out
 }
 
 func (e *Engine) allFunctionNames(pkgPath string) []string {
